@@ -1005,6 +1005,12 @@ impl OcflRepo {
         inventory.type_declaration = version.inventory_type().to_string();
         staging.stage_inventory(&inventory, false, false)?;
 
+        if inventory.is_new() {
+            // The object has not been committed yet, so its version declaration only exists in
+            // staging and would otherwise be installed unchanged
+            staging.restage_object_declaration(&inventory)?;
+        }
+
         self.commit_inner(object_id, meta, None, pretty_print, staging)
     }
 
